@@ -515,6 +515,10 @@ class Phase(Angle):
         if string.dtype.kind not in "SU":
             raise ValueError("require string input.")
         count, frac = _parse_strings(string)
+        # Both parts are parsed as complex.  A zero part is both "purely real"
+        # and "purely imaginary", so decide using the two parts together.
+        if np.all(count.imag == 0) and np.all(frac.imag == 0):
+            count, frac = count.real, frac.real
         return cls(count, frac)
 
     @property
